@@ -268,6 +268,32 @@ func sequences[V any](r *engine.Rec, tc typeCfg[V]) {
 					}
 					return mod.Queue[V](withNotation(np, src)...)
 				}, func() any { return mod.ParseSource(src) }, false, false)
+				// a stack or queue built from source has the capacity the parser and the class constructor give the same data
+				if kind == "Stack" || kind == "Queue" {
+					cq := cc(kind, "source capacity")
+					if r.Wanted(cq) {
+						modF := func() any {
+							if kind == "Stack" {
+								return mod.Stack[V](withNotation(np, src)...)
+							}
+							return mod.Queue[V](withNotation(np, src)...)
+						}
+						clsF := func() any {
+							if kind == "Stack" {
+								return col.Stack[V](N()).MakeFromArray(data)
+							}
+							return col.Queue[V](N()).MakeFromArray(data)
+						}
+						m, parsed, cls := run(modF, false), run(func() any { return mod.ParseSource(src) }, false), run(clsF, false)
+						r.Evals += 3
+						r.Outcome(cq.Kind + "/" + cq.Form)
+						returned := func(s snapshot) bool { return !s.stuck && !s.fuel && s.panicked == "" }
+						if returned(m) && returned(parsed) && returned(cls) && parsed.capacity == cls.capacity && m.capacity != cls.capacity {
+							r.Violation(fmt.Sprintf("%s(source) different capacity [%s]", kind, typeClass(cq.Type)),
+								fmt.Sprintf("%+v\nmodule-level capacity %d; parsed source %d; class-level constructor %d", cq, m.capacity, parsed.capacity, cls.capacity), cq)
+						}
+					}
+				}
 			}
 		}
 	}
